@@ -3,10 +3,8 @@
 import json, os
 import checklib as L
 
-F5_KEY = "F5-no-leavegroup-after-rebalance-in-progress"
-
 TRUSTED_BASE = [
-    "Coq 8.16.1 kernel (coqc; coqchk in the thorough tier); vm_compute used only in non-vacuity Examples and the refutation witness; no native_compute",
+    "Coq 8.16.1 kernel (coqc; coqchk in the thorough tier); vm_compute used only in the non-vacuity Example and the regression scenario C15_f5_scenario_leaves; no native_compute",
     "hand-written atomic-step model coq/Model/ConsumerGroup.v of /repo/consumergroup.go (Generation.Start/close, heartbeatLoop, partitionWatcher, run, nextGeneration, leaveGroup, Next, Close); "
     "what is modelled rather than verified: that sync.Mutex critical sections, channel close/send/receive and select behave as the labels assume (one label = one atomic action), that no other goroutine touches the state, "
     "and that a coordinator round trip can be treated as one step of the calling goroutine",
@@ -19,6 +17,8 @@ ASSUMPTIONS = [
     "functions passed to Generation.Start return at some point after their context is cancelled (the documented contract); the theorems are safety statements plus no-stuck-state, wall-clock bounds (heartbeat period, back-off length) are clock claims outside the model",
     "generations are numbered by creation order, member ids are what the coordinator answers; the coordinator may answer anything (success, RebalanceInProgress, other Kafka error, dropped connection) at every call",
     "the leave-on-close statement counts a LeaveGroup as attempted when the coordinator could not be reached for it (dropped connection / FindCoordinator error on the leave path)",
+    "'the current member id' is the memberID variable of ConsumerGroup.run: set by every successful JoinGroup, kept across generations and RebalanceInProgress results, cleared after the leave attempt following any other error, "
+    "and cleared WITHOUT LeaveGroup when a JoinGroup request itself fails (joinGroup returns \"\" on error); the harness tracks the same notion from the answers the coordinator gave",
 ]
 
 
@@ -95,7 +95,9 @@ def classify(c):
             return dict(layer="property", what="soak: " + c["go"] + " (watchdog)", input=c)
         return dict(layer="property", what=f"recorded timeline of the real ConsumerGroup violates monitor(s) {model}", input=c)
     if op == "wire":
-        return dict(layer="correspondence", what="wire-level F5 scenario: journal differs from the model's run of f5_witness (has the defect been fixed? then the model must follow)", input=None)
+        if "leave=0" in c["go"]:
+            return dict(layer="property", what="wire level: JoinGroup ok, SyncGroup -> RebalanceInProgress, Close: no LeaveGroup (api key 13) for member-1 in the journal (regression of F5)", input=c)
+        return dict(layer="correspondence", what="wire-level scenario (join, SyncGroup -> 27, Close): journal differs from the model's run of f5_scenario", input=None)
     v = e2e_violation(c)
     if v:
         return dict(layer="property", what="ConsumerGroup: " + v, input=c)
@@ -145,7 +147,7 @@ def correspondence(ctx):
         failures.append(f)
     # the property predicates on the implementation's own output, whether or not the model agrees
     badids = {c["id"] for c in bad}
-    f5, other_leave = [], []
+    noleave = []
     for c in cases:
         if c["id"] in badids:
             continue
@@ -156,25 +158,17 @@ def correspondence(ctx):
                                  input=dict(case=c["line"], go=c["go"], feats=c["feats"])))
         feats = c["feats"].split(",")
         if "leavefull=0" in c["go"] or "close-without-leave" in feats or (c["op"] == "wire" and "leave=0" in c["go"]):
-            (f5 if "offer-abort-rb" in feats else other_leave).append(c)
-    if f5:
-        # one failure for the defect, with the smallest witness (the scripted replay of the Coq witness first)
-        f5.sort(key=lambda c: (c["op"] != "e2e-f5", c["op"] != "wire", len(c["line"])))
-        w = f5[0]
-        wire = next((c for c in f5 if c["op"] == "wire"), None)
+            noleave.append(c)
+    # leave on close, judged on what the coordinator saw (one failure, smallest witness first)
+    if noleave:
+        noleave.sort(key=lambda c: (c["op"] != "e2e-f5", c["op"] != "wire", len(c["line"])))
+        w = noleave[0]
         failures.append(dict(
-            layer="property", key=F5_KEY,
-            what="Close returned while run held a member id and no LeaveGroup was sent for it: after a RebalanceInProgress result "
-                 "run offers the error on cg.errs, Close wins the select and run returns without leaveGroup(memberID) "
-                 "(consumergroup.go run; Coq: C15_leave_on_close_refuted, witness f5_witness)",
-            detail=json.dumps(dict(occurrences=len(f5), by_op={o: sum(1 for c in f5 if c["op"] == o) for o in sorted({c["op"] for c in f5})},
-                                   witness=w["line"][:600], go=w["go"][:300],
-                                   wire_journal=(wire["feats"] if wire else None))),
-            input=dict(case=w["line"], go=w["go"], feats=w["feats"], replay="harness cmd/c15 -only f5 (interface seam) and -only wire (net.Pipe)")))
-    for c in other_leave[:3]:
-        failures.append(dict(layer="property", key=None,
-                             what="Close returned while run held a member id and no LeaveGroup was attempted, on a path other than the RebalanceInProgress error offer",
-                             detail=c["line"][:1500] + " -> " + c["go"][:400], input=dict(case=c["line"], go=c["go"], feats=c["feats"])))
+            layer="property", key=None,
+            what="Close returned while run held a member id and no LeaveGroup was attempted for it since it joined"
+                 + (" (after a RebalanceInProgress result: regression of F5)" if "offer-abort-rb" in w["feats"] else ""),
+            detail=json.dumps(dict(occurrences=len(noleave), witness=w["line"][:800], go=w["go"][:300], feats=w["feats"])),
+            input=dict(case=w["line"], go=w["go"], feats=w["feats"])))
     ev, dn, hist = L.coverage_counts(cases, trivial_feats=("", "acc", "acc,close-nowait", "close-nowait", "late,close-nowait"))
     byop = {}
     for c in cases:
@@ -185,10 +179,10 @@ def correspondence(ctx):
                      "e2e = random walks of the real ConsumerGroup driven label by label against a gated scripted coordinator (0-2 partition watchers, short or long back-off; answers ok / RebalanceInProgress / "
                      "other Kafka error / dropped connection at connect, FindCoordinator, JoinGroup (+leader readPartitions, unknown balancer, bad metadata), SyncGroup (+undecodable assignment), OffsetFetch, Heartbeat, "
                      "LeaveGroup, watcher readPartitions; Next / Next-cancel / Close / Start on live and ended generations / function exit interleaved), the executed label sequence replayed by the extracted model and "
-                     "journal, Next results, Start accounting and final Generation fields compared; soak = free-running consumers, timeline judged by extracted monitors; e2e-f5 + wire = the Coq F5 witness on the real code; "
+                     "journal, Next results, Start accounting and final Generation fields compared; soak = free-running consumers, timeline judged by extracted monitors; e2e-f5 + wire = the former F5 scenario (join, SyncGroup -> RebalanceInProgress, no Next, Close) as regression on the real code, interface seam and net.Pipe wire level; "
                      "a case is non-trivial when its feature set is not just {accounted start, close without waiting}; distinct by hash of op+args",
                 samples=[c["line"][:300] + " | " + c["go"][:160] for c in cases[:3] + cases[mid:mid + 3] + cases[-2:]],
-                extra=dict(cases_by_op=byop, f5_occurrences=len(f5)),
+                extra=dict(cases_by_op=byop, close_after_rebalance_in_progress_offer=sum(1 for c in cases if "offer-abort-rb" in c["feats"].split(","))),
                 failures=failures)
 
 
@@ -202,7 +196,7 @@ def search(ctx, violations):
     except L.Fail:
         return None
     for f in c["failures"]:
-        if f.get("input") and f.get("key") != F5_KEY:
+        if f.get("input"):
             return f["input"]
     return None
 
